@@ -37,8 +37,21 @@ def load_oracle(section):
         return json.load(fh).get(section)
 
 
-def compare(chk, rule, section, cur, what, floor):
+def compare(chk, rule, section, cur, what, floor, row_filter=None, fn_filter=None):
     ora = load_oracle(section)
+    if ora is not None and (row_filter or fn_filter):
+        def flt(t):
+            out = {}
+            for fn, rows in t.items():
+                if fn_filter and not fn_filter(fn):
+                    continue
+                rr = [r for r in rows if (row_filter is None or row_filter(r))]
+                if rr:
+                    out[fn] = rr
+            return out
+        ora = flt(ora)
+        cur = flt(cur)
+    n = sum(len(v) for v in cur.values())
     n = sum(len(v) for v in cur.values())
     if ora is None:
         chk.add(Finding(rule, rule + "::oracle", "oracle/diag_table.json has no section %s" % section))
